@@ -157,6 +157,9 @@ class BuiltinMixin:
         """issubclass(C, K): decided for two classes of /repo; an uninterpreted predicate of (C, K) when C is an opaque class value
         (e.g. the dtype of a compiled node) and K a named class"""
         c, k = args
+        if isinstance(k, STuple):
+            parts = [self.truthy(self.b_issubclass(fr, f, [c, e], kw, node)) for e in k.elems]
+            return SBool(z3.Or(*parts) if parts else z3.BoolVal(False))
         if isinstance(c, SClass) and isinstance(k, SClass):
             return mkbool(self.is_subclass(self.d.classinfo(c.qual), k.qual))
         if isinstance(c, SDyn) and isinstance(k, (SBuiltin, SClass)):
@@ -565,6 +568,23 @@ class BuiltinMixin:
 
     def b_m_upper(self, fr, f, args, kw, node):
         return SStr(uf('str_upper', z3.StringSort(), z3.StringSort())(f.self_.t))
+
+    def b_m_join(self, fr, f, args, kw, node):
+        """sep.join(strings): concatenation for a literal sequence; for a symbolic sequence an uninterpreted string
+        (only ever used to build messages: nothing is assumed about it beyond being a function of its arguments).
+        A non-string element (TypeError) is not modelled: the elements are taken to be strings."""
+        if not isinstance(f.self_, SStr) or len(args) != 1:
+            raise Unsupported('join')
+        v = args[0]
+        if isinstance(v, STuple) and all(isinstance(e, SStr) for e in v.elems):
+            if not v.elems:
+                return SStr(z3.StringVal(''))
+            out = v.elems[0].t
+            for e in v.elems[1:]:
+                out = z3.Concat(out, f.self_.t, e.t)
+            return SStr(out)
+        seq = self.as_seq(v)
+        return SStr(uf('str_join', z3.StringSort(), SeqV, z3.StringSort())(f.self_.t, seq.t))
 
     def b_m_strip(self, fr, f, args, kw, node):
         if args:
